@@ -116,15 +116,25 @@ def run_case(case):
 
 
 def main():
+    import json
+    import sys
     payload = _boot.read_payload()
+    cases = payload["cases"]
+    # keep the input out of the collector's way and the output as strings: every dropped
+    # instance runs a full collection, which must not grow with the number of cases
+    gc.collect()
+    gc.freeze()
     out = []
-    for case in payload["cases"]:
+    for case in cases:
         try:
-            out.append(run_case(case))
+            res = run_case(case)
         except Exception as e:
-            out.append({"steps": [], "crash": type(e).__name__ + ": " + str(e)[:200]})
+            res = {"steps": [], "crash": type(e).__name__ + ": " + str(e)[:200]}
+        out.append(json.dumps(res))
+        del res
         gc.collect()
-    _boot.write_result({"obs": out})
+    sys.stdout.write('{"obs": [' + ", ".join(out) + ']}')
+    sys.stdout.flush()
 
 
 main()
